@@ -105,4 +105,40 @@ def encodeLists (c : Cmd) (env : Env) : Option Bytes := do
   else if !loopsOnly c.marshal then none
   else pure (UInt8.ofNat (pw.length / 2) :: pw ++ natLe 2 d.length ++ d)
 
+/-- the optional trailing parameter field of a structure (`OffsetHigh` of the 14-word WRITE_ANDX and WRITE_RAW
+    requests, the 12-word form of WRITE_AND_CLOSE): the single field the program emits under "is non-zero" -/
+def optionalFields : List MStmt → List String
+  | [] => []
+  | .ifNonZero f _ :: r | .ifNonZeroArr f _ :: r => f :: optionalFields r
+  | _ :: r => optionalFields r
+
+def withoutOptional : List MStmt → List MStmt
+  | [] => []
+  | .ifNonZero _ _ :: r | .ifNonZeroArr _ _ :: r => withoutOptional r
+  | s :: r => s :: withoutOptional r
+
+def isZeroVal : Val → Bool
+  | .n x => x == 0
+  | .ns xs => xs.all (· == 0)
+  | _ => false
+
+/-- MS-CIFS gives these requests two forms, with and without the optional field (WordCount tells which).  A sender
+    has to use the long form to carry a non-zero value; for a zero value this encoder pins the short form, which is
+    what the implementation chooses (the long form with a zero field would conform as well).  When the field is
+    present it is laid out like any other declared field: full declared width, little-endian. -/
+def encodeOptional (c : Cmd) (env : Env) : Option Bytes := do
+  let opt := optionalFields c.marshal
+  if opt.length != 1 ∨ !loopsOnly (withoutOptional c.marshal) then none else
+  let f ← opt.head?
+  let v ← env.get f
+  let fields := if isZeroVal v then c.fields.filter (·.1 != f) else c.fields
+  let enc (b : Blk) : Option Bytes :=
+    (fields.filter (fun (g, _) => blockOf c g == some b)).foldlM
+      (fun acc (g, t) => do pure (acc ++ (← encField t (← env.get g)))) []
+  let p ← enc .P
+  let d ← enc .D
+  let pw := andxBlock c.isAndX ++ p
+  if pw.length % 2 = 1 ∨ pw.length / 2 > 255 ∨ d.length > 65535 then none
+  else pure (UInt8.ofNat (pw.length / 2) :: pw ++ natLe 2 d.length ++ d)
+
 end Manticore.Spec.Cifs
